@@ -84,7 +84,7 @@ def joint_string(slots):
 def run(ctx):
     feat = C.draw_features(ctx)
     feat["max_params"] = 2
-    nag = 2 + ctx.s("cfg").draw(3)
+    nag = 1 + ctx.s("cfg").draw(4)
     W = C.World(ctx, feat, multi_agent=True, agents=nag)
     ops = ctx.s("ops")
     S, _ = C.ref_walk(ctx, W, ops.draw(3))
@@ -173,9 +173,46 @@ def run(ctx):
     # ---- exported trajectory of a 2-3 step joint plan: one step per joint action, chained
     if members:
         check_joint_plan(ctx, W, S, members, agents, d, p, ops)
+    # ---- two caller threads share one exporter (and the domain): each applies a joint action to its own state; both
+    # must get what they get alone
+    if members and ctx.s("cfg").chance(1, 4):
+        threaded(ctx, W, S, members, agents, d, p, s0, ops)
     # ---- inapplicable member injected
     inject(ctx, W, S, members, agents, d, p, s0, ops)
     ctx.steps += len(perms)
+
+
+def threaded(ctx, W, S, members, agents, d, p, s0, ops):
+    from pddl_plus_parser.multi_agent import MultiAgentTrajectoryExporter
+    shared = MultiAgentTrajectoryExporter(d)
+    # second state: same universe, fluents shifted (so that a value leaking from the other thread is visible)
+    S2 = (S[0], {k: v + 7.0 for k, v in S[1].items()})
+    jobs = []
+    for St in (S, S2):
+        ok, want, _ = interp.serialisable(St, [(W.action(a), args) for a, args in members], W.D, W.objs)
+        if not ok:
+            return
+        slots = [None] * len(agents)
+        for m in members:
+            slots[agents.index(agent_of(m, agents))] = m
+        st = C.lib_world(ctx, W, St, tag=f"-thr{len(jobs)}")[2]
+        jobs.append((joint_string(slots), st, want))
+
+    def mk(js, st):
+        return lambda: C.abs_state(shared.create_multi_agent_triplet(st, js, p.objects).next_state,
+                                   "create_multi_agent_triplet (shared exporter, 2 threads)", ID)
+
+    results, switches = C.concurrent(ctx, [mk(js, st) for js, st, _ in jobs])
+    for (js, st, want), r in zip(jobs, results):
+        if r[0] != "ok":
+            raise Violation("C16/joint-action-raised", "create_multi_agent_triplet (shared exporter, 2 threads)",
+                            f"{js}: {r[1]}")
+        if not interp.state_eq(r[1], want):
+            raise Violation("C16/joint-result-differs", "create_multi_agent_triplet (shared exporter, 2 threads)",
+                            f"{js}: {interp.state_diff(r[1], want)}", {"threads": 2})
+    ctx.probes["threaded_checked"] += 1
+    if switches:
+        ctx.probes["threaded_with_switches"] += 1
 
 
 def check_joint_plan(ctx, W, S, members, agents, d, p, ops):
